@@ -95,6 +95,9 @@ func cmdCheck(args []string) int {
 		}
 		cfg := RunCfg{Name: rs.Name, Entry: rs.Entry, DPOR: rs.DPOR, MaxRev: ts.MaxRev, Race: ts.Race, Params: ts.Params, Workers: *workers,
 			NoMapPerm: rs.NoMapPerm, NoSelectFork: rs.NoSelectFork, Covers: rs.Covers, StepLimit: ts.StepLimit, Unwind: ts.Unwind, Witness: ts.Witness, MaxWallS: ts.MaxWallS}
+		if *tier == "thorough" {
+			cfg.CrossCheck = 40
+		}
 		if ts.DPOR != nil {
 			cfg.DPOR = *ts.DPOR
 		}
@@ -270,6 +273,14 @@ func cmdCheck(args []string) int {
 		}
 	}
 
+	if *tier == "thorough" {
+		nq, bad := crossCheck(results, filepath.Join(outDir, "replays", "last", id))
+		cov["cross_solver"] = map[string]interface{}{"assertion_queries_rechecked_on_z3_5.1_and_cvc5": nq, "disagreements": bad}
+		for _, b := range bad {
+			inconclusive = append(inconclusive, "cross-solver disagreement: "+b)
+		}
+		cov["inconclusive"] = inconclusive
+	}
 	ev.WallS = round2(time.Since(t0).Seconds())
 	writeEvidence(evPath, ev)
 
